@@ -250,3 +250,96 @@ Proof. intros H E. pose proof (skipn_length k l) as HL. rewrite E in HL. cbn in 
 
 Lemma div2_half n : Nat.div2 n = (n / 2)%nat.
 Proof. apply Nat.div2_div. Qed.
+
+(** * variants with an explicit index equation *)
+Section upd_k.
+Context {A : Type}.
+Implicit Types (l pre post : list A).
+Lemma replace_nth_at k pre y post x : k = length pre ->
+  replace_nth k x (pre ++ y :: post) = pre ++ x :: post.
+Proof. intros ->. apply replace_nth_app_len. Qed.
+Lemma insert_nth_at_S k pre y post x : k = length pre ->
+  insert_nth (S k) x (pre ++ y :: post) = pre ++ y :: x :: post.
+Proof. intros ->. apply insert_nth_app_S. Qed.
+Lemma remove_nth_at_S k pre y z post : k = length pre ->
+  remove_nth (S k) (pre ++ y :: z :: post) = pre ++ y :: post.
+Proof. intros ->. apply remove_nth_app_S. Qed.
+Lemma nth_error_at k pre y post : k = length pre -> nth_error (pre ++ y :: post) k = Some y.
+Proof. intros ->. rewrite nth_error_app2, Nat.sub_diag by lia. reflexivity. Qed.
+Lemma nth_error_at_S k pre y post : k = length pre -> nth_error (pre ++ y :: post) (S k) = nth_error post 0.
+Proof. intros ->. induction pre as [|a r IH]; cbn [app length nth_error]; [reflexivity|exact IH]. Qed.
+Lemma nth_at k pre y post d : k = length pre -> nth k (pre ++ y :: post) d = y.
+Proof. intros ->. rewrite app_nth2, Nat.sub_diag by lia. reflexivity. Qed.
+Lemma nth_at_S k pre y z post d : k = length pre -> nth (S k) (pre ++ y :: z :: post) d = z.
+Proof. intros ->. induction pre as [|a r IH]; cbn [app length nth]; [reflexivity|exact IH]. Qed.
+Lemma last_two pre a b post d : last (pre ++ a :: b :: post) d = last (b :: post) d.
+Proof.
+  change (a :: b :: post) with ([a] ++ b :: post). rewrite app_assoc. apply last_app_cons.
+Qed.
+End upd_k.
+
+(** * the running sums under the three fix-ups of an index slab *)
+Lemma psums_split_mid b hpre hx hl hr hpost k :
+  k = length hpre -> h_count hl + h_count hr = h_count hx ->
+  let sums := psums b (hpre ++ hx :: hpost) in
+  let base := nth k sums 0 - h_count hx in
+  insert_nth (S k) (base + h_count hl + h_count hr) (replace_nth k (base + h_count hl) sums)
+  = psums b (hpre ++ hl :: hr :: hpost).
+Proof.
+  intros Hk Hc. cbv zeta. rewrite !psums_cons_app.
+  assert (Hk' : k = length (psums b hpre)) by (rewrite psums_length; exact Hk).
+  rewrite (nth_at k) by exact Hk'.
+  rewrite (replace_nth_at k) by exact Hk'. rewrite (insert_nth_at_S k) by exact Hk'.
+  cbn [psums]. f_equal. f_equal; [lia|]. f_equal; [lia|]. f_equal. lia.
+Qed.
+
+Lemma psums_rebalance_mid b hpre hl hr hl' hr' hpost k :
+  k = length hpre -> h_count hl' + h_count hr' = h_count hl + h_count hr ->
+  let sums := psums b (hpre ++ hl :: hr :: hpost) in
+  let base := nth k sums 0 - h_count hl in
+  replace_nth k (base + h_count hl') sums = psums b (hpre ++ hl' :: hr' :: hpost).
+Proof.
+  intros Hk Hc. cbv zeta. rewrite !psums_cons_app.
+  assert (Hk' : k = length (psums b hpre)) by (rewrite psums_length; exact Hk).
+  rewrite (nth_at k) by exact Hk'.
+  rewrite (replace_nth_at k) by exact Hk'.
+  cbn [psums]. f_equal. f_equal; [lia|]. f_equal; [lia|]. f_equal. lia.
+Qed.
+
+Lemma psums_merge_mid b hpre hl hr hm hpost k :
+  k = length hpre -> h_count hm = h_count hl + h_count hr ->
+  let sums := psums b (hpre ++ hl :: hr :: hpost) in
+  remove_nth (S k) (replace_nth k (nth (S k) sums 0) sums) = psums b (hpre ++ hm :: hpost).
+Proof.
+  intros Hk Hc. cbv zeta. rewrite !psums_cons_app.
+  assert (Hk' : k = length (psums b hpre)) by (rewrite psums_length; exact Hk).
+  cbn [psums]. rewrite (nth_at_S k) by exact Hk'.
+  rewrite (replace_nth_at k) by exact Hk'. rewrite (remove_nth_at_S k) by exact Hk'.
+  f_equal. f_equal; [lia|]. f_equal. lia.
+Qed.
+
+(* one child replaced by one with the same / one more / one less element *)
+Lemma psums_same_count b hpre hx hx' hpost :
+  h_count hx' = h_count hx -> psums b (hpre ++ hx' :: hpost) = psums b (hpre ++ hx :: hpost).
+Proof. intros H. rewrite !psums_cons_app, H. reflexivity. Qed.
+Lemma incr_from_psums b hpre hx hx' hpost k :
+  k = length hpre -> h_count hx' = h_count hx + 1 ->
+  incr_from k (psums b (hpre ++ hx :: hpost)) = psums b (hpre ++ hx' :: hpost).
+Proof.
+  intros Hk H. unfold incr_from. rewrite !psums_cons_app.
+  assert (Hk' : k = length (psums b hpre)) by (rewrite psums_length; exact Hk).
+  rewrite Hk'. rewrite firstn_app, firstn_all, Nat.sub_diag. cbn [firstn]. rewrite app_nil_r.
+  rewrite skipn_app, skipn_all, Nat.sub_diag. cbn [skipn app map]. f_equal.
+  rewrite psums_map_incr. f_equal; [lia|]. f_equal. lia.
+Qed.
+Lemma decr_from_psums b hpre hx hx' hpost k :
+  k = length hpre -> h_count hx' + 1 = h_count hx ->
+  decr_from k (psums b (hpre ++ hx :: hpost)) = psums b (hpre ++ hx' :: hpost).
+Proof.
+  intros Hk H. unfold decr_from. rewrite !psums_cons_app.
+  assert (Hk' : k = length (psums b hpre)) by (rewrite psums_length; exact Hk).
+  rewrite Hk'. rewrite firstn_app, firstn_all, Nat.sub_diag. cbn [firstn]. rewrite app_nil_r.
+  rewrite skipn_app, skipn_all, Nat.sub_diag. cbn [skipn app map]. f_equal.
+  replace (b + sum_cnt hpre + h_count hx) with (b + sum_cnt hpre + h_count hx' + 1) by lia.
+  rewrite psums_map_decr. f_equal. lia.
+Qed.
